@@ -1,1 +1,47 @@
-fn main() { println!("hv"); }
+//! hv: conformance harness binding the TLA+ specification in /verif/spec to the hpo crate.
+mod cmd_core;
+mod enc;
+mod paths;
+mod project;
+mod scenario;
+mod util;
+
+use util::Args;
+
+fn main() {
+    let argv: Vec<String> = std::env::args().collect();
+    if argv.len() < 2 {
+        eprintln!("usage: hv <command> [--key value ...]");
+        std::process::exit(2);
+    }
+    let args = Args::parse(&argv[2..]);
+    match argv[1].as_str() {
+        "replay-core" => cmd_core::run(&args),
+        "replay-one" => {
+            let text = std::fs::read_to_string(args.req("file")).unwrap_or_else(|e| {
+                eprintln!("cannot read replay file: {e}");
+                std::process::exit(2)
+            });
+            let v: serde_json::Value = serde_json::from_str(&text).unwrap_or_else(|e| {
+                eprintln!("bad replay file: {e}");
+                std::process::exit(2)
+            });
+            let reproduced = match v["cmd"].as_str().unwrap_or("") {
+                "replay-core" => cmd_core::replay_one(&v),
+                other => {
+                    eprintln!("unknown replay cmd {other}");
+                    std::process::exit(2)
+                }
+            };
+            if reproduced {
+                println!("VIOLATION property={} replay={}", v["property"].as_str().unwrap_or("?"), args.req("file"));
+                std::process::exit(1);
+            }
+            println!("not reproduced on the current tree");
+        }
+        other => {
+            eprintln!("unknown command {other}");
+            std::process::exit(2);
+        }
+    }
+}
